@@ -237,7 +237,7 @@ ADDED = {
     'C02': "Added: (R5b) the streams skipped by a window decrease are those skipped by an increase (send-closed AND nothing buffered); (R6) window updates derive from the signed field; (R7) truth tables of is_send_closed / is_send_streaming over the 15 states.",
     'C03': "Added: (R9) a stream popped from pending_window_updates always passes the release step; (R10) a release that queues a stream WINDOW_UPDATE wakes the connection task.",
     'C04': "Added: (R4b) promotion from pending_open only behind has_send_capacity; (R6, typestate) the State::is_* tests guarding a stream WINDOW_UPDATE build site admit no closed state over the 15 reference states; (R7) one idle boundary id < next / id >= next and next_stream_id advances to id.next_id(); (R8) block contiguity (= C01.R5).",
-    'C05': "Added: (R5) every stream popped from pending_open is counted; (R6) queue_open exactly under is_local_init && !is_pending_push; (R7) the refusal slot is emptied only after the RST_STREAM(REFUSED_STREAM) was buffered.",
+    'C05': "Added: (R5) every stream popped from pending_open is counted; (R6) queue_open exactly under is_local_init && !is_pending_push; (R7) the refusal slot is emptied only after the RST_STREAM(REFUSED_STREAM) was buffered. (R9) a received RST_STREAM releases the slot from every state: State::recv_reset over the 15 reference states x {queued, not} leaves no scheduled-only reset behind (F11).",
     'C06': "Added: path-sensitive forms of the ping registration and closer notification rules (every exit registers / notifies). (R8 = C05.R3) a stream popped from a work queue is processed or re-queued on every path.",
     'C07': "Added: (R2) every non-error exit of recv_eof / handle_error / recv_go_away passed the per-stream walk and the walk notifies every stream on every path; (R6) 30 rows: a connection error / EOF closes every live state and leaves closed ones (a cleanly ended stream still delivers); (R8) Drop for UserPingsRx publishes CLOSED before waking.",
     'C08': "Added: (R6, TSTATE) for 15 states x own-RST-queued, a stream that State::recv_reset turns into a remote reset was counted by Recv::recv_reset, so assert!(num_remote_reset_streams > 0) is unreachable; (R7) SETTINGS_MAX_FRAME_SIZE below 2^14 is refused (ordering regions at the store); (R8) owed-reply slots are never emptied without the reply; (R9) reset ids are retired; (R10) the client's only self-wake is edge-triggered; (R11) preface reads are bounded by the bytes still missing.",
@@ -245,13 +245,13 @@ ADDED = {
     'C10': "Added: (R6) Encoder::update_max_size evaluated for every weak ordering of (new, pending, table max): final = requested, minimum first; (R7/R8) both dynamic tables store iff size+len <= max and evict exactly while > max, accounting paired; (R9) entry size = 32 + pseudo-name length + value; (R10) every representation arm consumes what it decoded.",
     'C11': "Added: (R6) eviction / store boundaries as ordering regions; (R7) entry-size table.",
     'C12': "Added: (R3) header-block write limit is exactly max_frame_size + 9; (R6) the final flush is marked done only on the Ready(Ok) edge of flush(); (R7) payload range provenance in decode_frame; (R8) the reader's limits follow the acknowledged local SETTINGS parameter by parameter (delta semantics).",
-    'C13': "Added: (R4) recv_headers explored under {END_STREAM, content-length > 0, :status absent}: every exit is an error; (R5) the regular-field-seen flag guards all six pseudo stores and is carried across CONTINUATION frames.",
-    'C14': "Added: (R7) no-loss discipline of the owed SETTINGS-ack / PONG slots under write back-pressure; (R8) the window delta reaches the same streams for increase and decrease; (R9) a PING ack consumes only the PING it echoes; (R4) local limits are applied as a delta.",
+    'C13': "Added: (R4) recv_headers explored under {END_STREAM, content-length > 0, :status absent}: every exit is an error; (R5) the regular-field-seen flag guards all six pseudo stores and is carried across CONTINUATION frames. (R8) the predicate that admits interim (1xx) HEADERS, State::is_send_awaiting_headers, agrees with the reference on all 15 states.",
+    'C14': "Added: (R7) no-loss discipline of the owed SETTINGS-ack / PONG slots under write back-pressure; (R8) the window delta reaches the same streams for increase and decrease; (R9) a PING ack consumes only the PING it echoes; (R4) local limits are applied as a delta. (R6) Ping.ack, evaluated as an expression over all 256 flag octets, is (flags & 0x1 != 0).",
     'C15': "Added: (R4b) only the matching ack consumes the shutdown PING; (R6) the final GOAWAY is flushed before the transport is shut down.",
     'C16': "Added: (R7) every clear_queue is followed by reclaim_all_capacity on every path (returns and loop back-edges).",
     'C17': "Added: (R7) clearing a stream's queue drops only that stream's in-flight DATA frame.",
-    'C18': "Added: budget charged with the unpadded payload; header-list size accumulated across CONTINUATION frames; (R7) the write-buffer gate measures capacity() - len(); (R8) no-loss of owed replies.",
-    'C19': "Added: (R6) client::Connection::poll re-checks has_streams_or_other_references after polling; (R8) the last reference of a closed stream wakes the connection whatever queues still hold it.",
+    'C18': "Added: budget charged with the unpadded payload; header-list size accumulated across CONTINUATION frames; (R7) the write-buffer gate measures capacity() - len(); (R8) no-loss of owed replies. (R7) the sum the write-buffer gate compares is +capacity(buf) - len(buf) - min_buffer_capacity, however the comparison is written.",
+    'C19': "Added: (R6) client::Connection::poll re-checks has_streams_or_other_references after polling; (R8) the last reference of a closed stream wakes the connection whatever queues still hold it. (R11 = C05.R9) no scheduled-only reset survives a received RST_STREAM; (R12 = C16.R7) the window behind discarded DATA returns to the connection.",
     'C20': "Added: (R6/R7) handles dropped on another thread during a poll are noticed (post-poll re-check, last-reference wake). (R10 = C06.R1b) every handle operation that queues work for the connection wakes its task - the only signal that crosses threads. (RD) no Result of an h2 call is dropped in the handle layer.",
 }
 
